@@ -52,15 +52,14 @@ theorem C05_fixed_checked (ps : List PK) (pol : Policy) (P : Store → Prop) (hP
   exact stable_checked _ P (hc _ hk) st' _ (propagate_inv ps pol P hP hc fuel _ st st' hp h) hs
     (allFixed_fixedOn hf _) (allFixed_mem hf)
 
-/-- **C05 (all modelled kinds, with store preconditions).** The general form of `C05_contract`:
-static well-formedness `WFs` plus a store invariant that makes the boolean variables boolean and
-implies the kind's store precondition (`modulo`: non-negative dividend, positive divisor — what
-the proof of soundness still uses after the repairs of the modulo propagator; every other kind: none).  Covers leq, eq, add, sum,
+/-- **C05 (all modelled kinds).** The general form of `C05_contract`: static well-formedness `WFs`
+plus a store invariant that makes the boolean variables boolean; no kind needs a further store
+precondition (`modulo` is proved for all signs of dividend and divisor).  Covers leq, eq, add, sum,
 linear rows (plain and reified), reified comparisons, boolean kinds, abs, min, max, mul, div,
 modulo, all-equal, between, count, cardinality, element, table, if-then-else, all-different. -/
 theorem C05_contract_inv (k : PK) (hwf : k.WFs) (P : Store → Prop)
-    (hP : ∀ st, P st → BoolStore k.boolVars st) (hS : ∀ st, P st → k.StoreOk st) : PKContract k P :=
-  PK.contract_inv k hwf P hP hS
+    (hP : ∀ st, P st → BoolStore k.boolVars st) : PKContract k P :=
+  PK.contract_inv k hwf P hP
 
 /-- **C05 (the fixpoint is reached).** Propagation always terminates: more than
 `|agenda| + P · size` steps are never needed (`size` = number of values in the declared domains),
